@@ -179,6 +179,12 @@ def run(chk):
         t = rng.choice([1, 2, 3])
         lk = dict(method=method, optimal_ordering=rng.random() < 0.5)
         ck = dict(t=t, criterion="distance") if not (it_h < 4 and it_h % 2) else dict(t=2, criterion="maxclust")
+        if it_h in (4, 5):
+            # every run: single linkage cut at a small distance on groups that lie FAR apart (merge heights well above t + 1)
+            xs = [["A", "AC", "DDDDDD", "DDDDDE", "CCCCCCCCCCCC"], ["ACDA", "ACDC", "DDDDDDDDD", "", "DDDDDDDCC"]][it_h - 4]
+            method, t = "single", (1, 2)[it_h - 4]
+            lk = dict(method="single", optimal_ordering=False) if it_h == 4 else dict(method="single")
+            ck = dict(t=t, criterion="distance")
         cont = rng.choice(["list", "series"])
         obj = xs if cont == "list" else pd.Series(xs, index=rng.sample(range(100), len(xs)))
         real = core.call_real(lambda: ds.hierarchical_clustering(obj, linkage_kws=lk, cluster_kws=ck))
